@@ -1576,11 +1576,13 @@ fn run_recv_client(shape: Shape, headers: &[WEnt], trailers: &[WEnt], outcome: &
             let mut t = HeaderMap::new();
             t.insert("grpc-status", HeaderValue::from_str(&code.to_string()).unwrap());
             t.insert("grpc-message", HeaderValue::from_static("peer%20says%20no"));
+            t.insert("grpc-status-details-bin", HeaderValue::from_static("ZGV0YWlscyE"));
             steps.push(BodyStep::Trailers(to_header_map(t, trailers)));
         }
         RecvOutcome::TrailersOnly { code } => {
             hdrs.insert("grpc-status", HeaderValue::from_str(&code.to_string()).unwrap());
             hdrs.insert("grpc-message", HeaderValue::from_static("peer%20says%20no"));
+            hdrs.insert("grpc-status-details-bin", HeaderValue::from_static("ZGV0YWlscyE"));
         }
     }
     let reply = Reply { status: 200, headers: hdrs, steps };
@@ -1594,6 +1596,8 @@ fn run_recv_client(shape: Shape, headers: &[WEnt], trailers: &[WEnt], outcome: &
     let merged = !shape.streaming_resp();
     let check_status = |s: &Status, code: u8, place: &str| -> Result<(), Failure> {
         ensure!(s.code() == Code::from_i32(code as i32) && s.message() == message, "C08/call-failed", "{place}: status is {:?} {:?}, the peer sent code {code} {message:?}", s.code(), s.message());
+        // the rest of the status travels with its metadata (C02: code, message *and details*)
+        ensure!(code == 0 || s.details() == b"details!", "C08/status-details-lost", "{place}: the peer sent details \"details!\" with the status, the caller's Status has {:?}", String::from_utf8_lossy(s.details()));
         Ok(())
     };
     match outcome {
